@@ -34,4 +34,8 @@ def renamePins (ρ : List (PinN × PinN)) (pins : List PinN) : List PinN :=
     | some e => e.2
     | none => p
 
+/-- `Model.expand_mode`: every (mode-free) pin once per mode, the old printable name becoming the base name -/
+def expandPins (pins : List PinN) (modes : List String) : List PinN :=
+  pins.flatMap fun p => modes.map fun m => ⟨p.name, some m⟩
+
 end Names
